@@ -75,7 +75,8 @@ def cases(ctx):
                 continue
             if ctx.mine(idx) and has_cycle(n, edges):
                 yield {"n": n, "edges": [list(e) for e in edges], "real": rng.choice(["direct", "list", "nested", "mixed", "mixed"]),
-                       "lib": "eems" if idx % 5 == 0 else "probe", "order": rng.randrange(10 ** 6)}
+                       "lib": "eems" if idx % 5 == 0 else "probe", "order": rng.randrange(10 ** 6), "multiline": idx % 3 == 0, "dupe": idx % 4 == 1,
+                       "sorted_order": idx % 3 == 0 and idx % 2 == 0}
             idx += 1
     for i in range(ctx.n(300, 20000)):
         n = rng.randint(5, 8)
@@ -88,16 +89,43 @@ def cases(ctx):
         for a, b in zip(cyc, cyc[1:] + cyc[:1]):
             edges.add((a, b))
         yield {"n": n, "edges": [list(e) for e in sorted(edges)], "real": rng.choice(["direct", "list", "nested", "mixed"]),
-               "lib": rng.choice(["probe", "probe", "eems"]), "order": rng.randrange(10 ** 6)}
+               "lib": rng.choice(["probe", "probe", "eems"]), "order": rng.randrange(10 ** 6), "multiline": rng.random() < 0.4, "dupe": rng.random() < 0.3,
+               "sorted_order": rng.random() < 0.3}
+
+
+def _layout(line, multi):
+    """'N = Op(A = x, L = [..])' -> the one-argument-per-line layout Program.to_string() writes."""
+    if not multi:
+        return line
+    head, rest = line.split("(", 1)
+    body = rest[:-1]
+    parts, depth, cur = [], 0, ""
+    for ch in body:
+        if ch == "[":
+            depth += 1
+        elif ch == "]":
+            depth -= 1
+        if ch == "," and depth == 0:
+            parts.append(cur.strip())
+            cur = ""
+        else:
+            cur += ch
+    if cur.strip():
+        parts.append(cur.strip())
+    return head + "(\n    " + ",\n    ".join(parts) + "\n)"
 
 
 def build_text(case):
     n, edges, real = case["n"], [tuple(e) for e in case["edges"]], case["real"]
     rng = random.Random(case["order"])
+    multi = bool(case.get("multiline"))
+    dupe = bool(case.get("dupe"))
     lines = []
     if case["lib"] == "probe":
         for i in range(n):
             outs = ["N%d" % j for (a, j) in edges if a == i]
+            if dupe and outs:
+                outs = outs + [outs[0]]          # the same result referenced twice by one command
             if not outs:
                 lines.append("N%d = Src(V = %d)" % (i, i))
                 continue
@@ -120,6 +148,8 @@ def build_text(case):
         lines.append('Leaf = EEMSRead(InFileName = "in.csv", InFieldName = "X0")')
         for i in range(n):
             outs = ["N%d" % j for (a, j) in edges if a == i]
+            if dupe and outs:
+                outs = outs + [outs[0]]
             if not outs:
                 lines.append("N%d = Copy(InFieldName = Leaf)" % i)
             elif len(outs) == 1 and real in ("direct", "mixed"):
@@ -129,8 +159,11 @@ def build_text(case):
             else:
                 lines.append("N%d = %s(InFieldNames = [%s])" % (i, rng.choice(["Sum", "Maximum", "Mean"]), ", ".join(outs)))
         libs = arr.CSV_LIBS
-    rng.shuffle(lines)
-    return "\n".join(lines), libs
+    if case.get("sorted_order"):
+        lines.sort(key=lambda ln: (not ln.startswith("Leaf"), int(ln.split(" ")[0][1:]) if ln[0] == "N" else -1))   # no forward references where avoidable
+    else:
+        rng.shuffle(lines)
+    return "\n".join(_layout(ln, multi) for ln in lines), libs
 
 
 def run_case(ctx, case):
@@ -141,7 +174,7 @@ def run_case(ctx, case):
         with open(d + "/in.csv", "w") as f:
             f.write("X0\n1\n2\n3\n")
     st = structure(case["n"], [tuple(e) for e in case["edges"]])
-    ctx.feature((case["n"] if case["n"] <= 4 else "5-8", st, case["real"], case["lib"]))
+    ctx.feature((case["n"] if case["n"] <= 4 else "5-8", st, case["real"], case["lib"], bool(case.get("multiline")), bool(case.get("dupe")), bool(case.get("sorted_order"))))
     ctx.count("cyclic_programs_run")
     try:
         prog = Program.from_source(text, libraries=libs, working_dir=d)
